@@ -380,6 +380,9 @@ def gen_case(r, version):
             line = ["P", ["zp7", "%s+,%s-" % (a, free[0]), "*"], []]
             H.model_add(st_, line)
             ops.append(["add", line, False])
+            if gen.chance(r, 0.6):
+                # ... and right away the link that path waits for, with the name of the pending segment as its ID
+                ops.append(["collide_add", "L\t%s\t+\t%s\t-\t*\tID:Z:%s" % (a, free[0], free[0]), "cross_type_on_placeholder"])
         elif x < 0.2 and version == "gfa1" and st_.model.missing_links() and names:
             # the link a path is waiting for, carrying an ID which is already in use: by a line, or by a segment
             # that is not defined yet and that other lines mention
